@@ -45,8 +45,8 @@ func init() {
 			return fmt.Sprintf("FAIL String()=%q reparses to %v %v", v.String(), w, err)
 		}
 		// the two predicates on the parts
-		if v.Empty() != (v.Epoch == 0 && v.Version == "" && v.Revision == "") || (version.Version{}).Empty() != true ||
-			(version.Version{Epoch: 1}).Empty() || (version.Version{Revision: "1"}).Empty() || (version.Version{Version: "1"}).Empty() {
+		zero, e1, e2, e3 := version.Version{}, version.Version{Epoch: 1}, version.Version{Revision: "1"}, version.Version{Version: "1"}
+		if v.Empty() != (v.Epoch == 0 && v.Version == "" && v.Revision == "") || !zero.Empty() || e1.Empty() || e2.Empty() || e3.Empty() {
 			return fmt.Sprintf("FAIL Empty() of %v = %v", v, v.Empty())
 		}
 		if v.IsNative() != (v.Revision == "") {
